@@ -561,10 +561,95 @@ Proof.
   rewrite E0. reflexivity.
 Qed.
 
+(* ------------------------------------------------------------------ bilateral filter: the window
+   int(3 * sigma_space + 1), for ANY spatial kernel [sk] and range kernel [rk] (data of the harness) *)
+
+Section Bilateral.
+  Variables (inv B : Z) (sigma : Q) (sk : Z -> Z -> Q) (rk : Q -> Q).
+  Hypothesis HB : 1 <= B.
+  Let W := Qfloor (3 * sigma + 1).
+  Hypothesis HW : 0 <= W.
+  Let rad := W / 2.
+
+  Lemma brad_facts : 0 <= rad /\ W <= 2 * rad + 1.
+  Proof. unfold rad. split; [apply Z.div_pos; lia|]. pose proof (Z.div_mod W 2). pose proof (Z.mod_pos_bound W 2). lia. Qed.
+
+  Lemma bilateral_interior : forall ny nx disp mask r c,
+    rad <= r -> r + rad < ny -> rad <= c -> c + rad < nx ->
+    fst (Filters.bilateral_filter_disparity inv B ny nx sigma sk rk disp mask) r c =
+    let md := Filters.masked_data inv disp mask in
+    if Filters.is_none (md r c) then disp r c
+    else Filters.bilateral_at sk rk md W rad (r - rad) (c - rad).
+  Proof.
+    intros ny nx disp mask r c H1 H2 H3 H4. destruct brad_facts as [R0 R1].
+    unfold Filters.bilateral_filter_disparity, Filters.filter_bilateral, Filters.win_width. cbv zeta. cbn [fst].
+    fold W. replace (Z.min ny (Z.min nx W)) with W by lia. fold rad.
+    rewrite loop2_spec by lia.
+    replace ((rad <=? r) && (r <? rad + (ny - W + 1)) && (rad <=? c) && (c <? rad + (nx - W + 1))) with true
+      by (symmetry; apply band_true4; lia).
+    destruct (Filters.is_none (Filters.masked_data inv disp mask r c)); reflexivity.
+  Qed.
+
+  Lemma bilateral_at_local : forall (md md' : Filters.map2) r c r' c',
+    (forall a b, - rad <= a <= rad -> - rad <= b <= rad -> md (r + a) (c + b) = md' (r' + a) (c' + b)) ->
+    Filters.bilateral_at sk rk md W rad (r - rad) (c - rad) = Filters.bilateral_at sk rk md' W rad (r' - rad) (c' - rad).
+  Proof.
+    intros md md' r c r' c' H. destruct brad_facts as [R0 R1]. unfold Filters.bilateral_at.
+    replace (r - rad + rad) with (r + 0) by lia. replace (c - rad + rad) with (c + 0) by lia.
+    replace (r' - rad + rad) with (r' + 0) by lia. replace (c' - rad + rad) with (c' + 0) by lia.
+    rewrite (H 0 0) by lia. destruct (md' (r' + 0) (c' + 0)) as [cv|]; [|reflexivity].
+    f_equal. f_equal. unfold Filters.bil_terms.
+    apply flat_map_ext_in. intros a Ha. apply flat_map_ext_in. intros b Hb.
+    apply In_arr_zrange in Ha. apply In_arr_zrange in Hb.
+    replace (r - rad + a) with (r + (a - rad)) by lia. replace (c - rad + b) with (c + (b - rad)) by lia.
+    replace (r' - rad + a) with (r' + (a - rad)) by lia. replace (c' - rad + b) with (c' + (b - rad)) by lia.
+    rewrite H by lia. reflexivity.
+  Qed.
+
+  Lemma bilateral_map_local : forall ny nx ny' nx' disp mask disp' mask' r c r' c',
+    rad <= r -> r + rad < ny -> rad <= c -> c + rad < nx ->
+    rad <= r' -> r' + rad < ny' -> rad <= c' -> c' + rad < nx' ->
+    (forall a b, - rad <= a <= rad -> - rad <= b <= rad ->
+       disp (r + a) (c + b) = disp' (r' + a) (c' + b) /\ mask (r + a) (c + b) = mask' (r' + a) (c' + b)) ->
+    fst (Filters.bilateral_filter_disparity inv B ny nx sigma sk rk disp mask) r c
+    = fst (Filters.bilateral_filter_disparity inv B ny' nx' sigma sk rk disp' mask') r' c'.
+  Proof.
+    intros ny nx ny' nx' disp mask disp' mask' r c r' c' H1 H2 H3 H4 H1' H2' H3' H4' Hag.
+    destruct brad_facts as [R0 R1].
+    rewrite !bilateral_interior by assumption. cbv zeta.
+    assert (Emd : forall a b, - rad <= a <= rad -> - rad <= b <= rad ->
+              Filters.masked_data inv disp mask (r + a) (c + b) = Filters.masked_data inv disp' mask' (r' + a) (c' + b)).
+    { intros a b Ha Hb. unfold Filters.masked_data. destruct (Hag a b Ha Hb) as [-> ->]. reflexivity. }
+    pose proof (Emd 0 0 ltac:(lia) ltac:(lia)) as E0. rewrite !Z.add_0_r in E0.
+    destruct (Hag 0 0 ltac:(lia) ltac:(lia)) as [D0 _]. rewrite !Z.add_0_r in D0.
+    rewrite E0, D0, (bilateral_at_local _ _ r c r' c' Emd). reflexivity.
+  Qed.
+
+  Theorem bilateral_step_local :
+    local no_side (bilateral_step inv B sigma sk rk) (rad_filter W) (rad_filter W).
+  Proof.
+    intros F G r c r' c' HF HG Hag _. destruct brad_facts as [R0 R1].
+    assert (Wf : rad_wf (rad_filter W)) by (unfold rad_wf, rad_filter; cbn [rho lam mu]; fold rad; lia).
+    pose proof (agree_centre _ F G _ r c r' c' Wf Hag) as E.
+    unfold cone_in, rad_filter in HF, HG. cbn [rho lam mu] in HF, HG. fold rad in HF, HG.
+    assert (Hcone : forall a b, - rad <= a <= rad -> - rad <= b <= rad -> in_cone (rad_filter W) a b).
+    { intros a b Ha Hb. unfold in_cone, rad_filter. cbn [rho lam mu]. fold rad. lia. }
+    unfold bilateral_step. cbv zeta.
+    rewrite (bilateral_map_local (f_nr F) (f_nc F) (f_nr G) (f_nc G) (fld p_dL F) (fld p_fL F) (fld p_dL G) (fld p_fL G)
+               r c r' c'); try lia.
+    2:{ intros a b Ha Hb. unfold fld. rewrite (Hag a b (Hcone a b Ha Hb)). split; reflexivity. }
+    rewrite (bilateral_map_local (f_nr F) (f_nc F) (f_nr G) (f_nc G) (fld p_dR F) (fld p_fR F) (fld p_dR G) (fld p_fR G)
+               r c r' c'); try lia.
+    2:{ intros a b Ha Hb. unfold fld. rewrite (Hag a b (Hcone a b Ha Hb)). split; reflexivity. }
+    rewrite E. reflexivity.
+  Qed.
+End Bilateral.
+
 (* ------------------------------------------------------------------ pipelines *)
 
-Definition env_wf (V : env) : Prop := cfg_wf (e_cfg V) /\ 1 <= e_bwta V /\ 1 <= e_bmed V.
-Definition step_wf (s : step) : Prop := match s with SMedian w => 0 <= w | _ => True end.
+Definition env_wf (V : env) : Prop := cfg_wf (e_cfg V) /\ 1 <= e_bwta V /\ 1 <= e_bmed V /\ 1 <= e_bbil V.
+Definition step_wf (s : step) : Prop :=
+  match s with SMedian w => 0 <= w | SBilateral sigma _ _ => 0 <= bil_win sigma | _ => True end.
 
 Lemma step_D_wf : forall G s, cfg_wf G -> step_wf s -> rad_wf (step_D G s) /\ rad_wf (step_M G s).
 Proof.
@@ -577,11 +662,12 @@ Qed.
 Lemma step_local : forall V s, env_wf V -> step_wf s ->
   local (step_side (e_cfg V) s) (step_op V s) (step_D (e_cfg V) s) (step_M (e_cfg V) s).
 Proof.
-  intros V s (Hc & Hb1 & Hb2) Hs. destruct s; cbn [step_side step_op step_D step_M].
+  intros V s (Hc & Hb1 & Hb2 & Hb3) Hs. destruct s; cbn [step_side step_op step_D step_M].
   - apply mc_step_local; assumption.
   - apply wta_step_local; assumption.
   - apply refine_step_local.
   - apply median_step_local; assumption.
+  - apply bilateral_step_local; assumption.
   - apply xcheck_step_local; assumption.
 Qed.
 
@@ -605,3 +691,4 @@ Proof.
   induction steps as [|s rest IH]; cbn [pipe_rad kpipe_rad map]; [reflexivity|].
   rewrite IH. destruct (kpipe_rad G (map forget rest)). destruct s; reflexivity.
 Qed.
+
